@@ -126,6 +126,41 @@ func genC03(h *H) {
 		a, b := h.randScalarInt(), h.randScalarInt()
 		h.do("random-mul512", "mul512rsh320", hx(be32(a.Mod(a, curveN))), hx(be32(b.Mod(b, curveN))))
 	}
+	// rounding boundaries of mul512Rsh320Round inside splitK: scalars k with k*z mod 2^(320+64j) within a few
+	// units of the top (the rounding increment carries through j 64-bit digits: 2^-64, 2^-128 … at random),
+	// and just above a multiple (no carry), for both estimate constants z
+	for _, zs := range []string{"3086d221a7d46bcde86c90e49284eb153daa8a1471e8ca7f", "e4437ed6010e88286f547fa90abfe4c4221208ac9df506c6"} {
+		z, _ := new(big.Int).SetString(zs, 16)
+		for _, sh := range []uint{384, 448, 383, 320} {
+			top := new(big.Int).Lsh(one, sh)
+			maxM := new(big.Int).Div(new(big.Int).Mul(z, curveN), top)
+			ms := []*big.Int{big.NewInt(1), big.NewInt(2), new(big.Int).Set(maxM)}
+			for i := 0; i < 2*h.budget; i++ {
+				if maxM.Sign() > 0 {
+					ms = append(ms, new(big.Int).Add(one, new(big.Int).Rand(h.rng, maxM)))
+				}
+			}
+			for _, M := range ms {
+				if M.Sign() == 0 {
+					continue
+				}
+				k0 := new(big.Int).Div(new(big.Int).Mul(M, top), z)
+				for _, j := range []int64{-1, 0, 1} {
+					k := new(big.Int).Add(k0, big.NewInt(j))
+					if k.Sign() <= 0 || k.Cmp(curveN) >= 0 {
+						continue
+					}
+					ks := hx(be32(k))
+					h.do("round-splitk", "splitk", ks)
+					h.do("round-mul512", "mul512rsh320", ks, hx(be32(z)))
+					if sh == 384 || sh == 448 {
+						h.do("round-var-G", "smul", ks, G)
+						h.do("round-base", "sbmul", ks)
+					}
+				}
+			}
+		}
+	}
 	// naf carry patterns
 	for _, pat := range [][]byte{{0xff}, {0xff, 0xff}, {0x55, 0x55}, {0xaa, 0xaa}, {0x00, 0x01}, {0x80}, {0x7f, 0xff, 0xff}, {0xc0}, {0x03}, {}, {0x00}} {
 		h.do("naf-pattern", "naf", hx(pat))
